@@ -37,6 +37,7 @@ def units(tier):
         U("cond.2w_final_all.Lock", dict(waiters=2, notifiers=0, final="notify_all", lock_cls="Lock"), 34),
         U("cond.2w_final_all.reentrant", dict(waiters=2, notifiers=0, final="notify_all", reentrant=True), 40),
         U("cond.2w_final_all.mixed_depth", dict(waiters=2, notifiers=0, final="notify_all", reentrant="mixed"), 38),
+        U("cond.2w_final_all.interrupt", dict(waiters=2, notifiers=0, final="notify_all", interrupt=True), 40),
         U("cond.2w_final_all.xproc", dict(waiters=2, notifiers=0, final="notify_all", same_process=False), 34),
         U("event.2w_1s", dict(kind="event", waiters=2, setters=1), 38),
         U("event.1w_1s_1c_1p", dict(kind="event", waiters=1, setters=1, clearers=1, probers=1), 40),
